@@ -1,9 +1,10 @@
 """Registry: unit id -> (builder, properties served); property id -> info for the evidence file."""
-from . import u01_results, u05_arith_eval
+from . import u01_results, u05_arith_eval, u06_arith_literal
 
 UNITS = {
     'U1': (u01_results.build, u01_results.PROPS),
     'U5': (u05_arith_eval.build, u05_arith_eval.PROPS),
+    'U6': (u06_arith_literal.build, u06_arith_literal.PROPS),
 }
 
 PROPERTIES = {
